@@ -3,6 +3,22 @@
 //! Generic harness bodies live in the cXX modules; `instances.rs` (generated from
 //! /verif/harnesses.py by check.py) instantiates them as #[kani::proof] functions.
 #[cfg(kani)]
+pub mod sym;
+#[cfg(kani)]
+pub mod c01;
+#[cfg(kani)]
+pub mod c06;
+#[cfg(kani)]
+pub mod c03;
+#[cfg(kani)]
+pub mod c09;
+#[cfg(kani)]
+pub mod c10;
+#[cfg(kani)]
 pub mod c17;
 #[cfg(kani)]
+pub mod c18;
+#[cfg(kani)]
 pub mod instances;
+#[cfg(kani)]
+pub use sym::SYM;
